@@ -185,10 +185,10 @@ type Strings struct {
 }
 
 type Intervals struct {
-	A [12]byte          `parquet:"a,interval"`
-	B parquet.Interval  `parquet:"b,interval"`
-	D parquet.Interval  `parquet:"d,optional,interval"`
-	E [12]byte          `parquet:"e,optional,interval"`
+	A [12]byte         `parquet:"a,interval"`
+	B parquet.Interval `parquet:"b,interval"`
+	D parquet.Interval `parquet:"d,optional,interval"`
+	E [12]byte         `parquet:"e,optional,interval"`
 }
 
 type Geo struct {
@@ -348,22 +348,14 @@ type FieldIDs struct {
 	D map[string]int32 `parquet:"d,id(4)"`
 }
 
-// nested pointer chains
-type PtrChains struct {
-	A **int32
-	B ***string
-	C **In
-	D []**int32 `parquet:"d,list"`
-	E *[]int32
-	F **[]int32
+// pointers to maps, slices of pointers to structs (pointer chains **T and
+// pointers to slices *[]T: known findings, see known.go)
+type PtrMore struct {
 	G *map[string]int32
-}
-
-type PtrSlices struct {
-	E *[]int32
-	G []*In
 	H []*In `parquet:"h,list"`
-	I *[]In
+	I []*In
+	J *In `parquet:"j,optional"`
+	K map[string]*int32
 }
 
 // arrays of fixed size bytes of many sizes (null-index kernels per size)
@@ -456,7 +448,6 @@ type HugeLists struct {
 	}
 	D []int64   `parquet:"d,list" parquet-element:",optional"`
 	E [][]int32 `parquet:"e,list"`
-	F []*int32
 }
 
 func catalogue2() []*cat {
@@ -491,8 +482,7 @@ func catalogue2() []*cat {
 		mk[SkipRename]("SkipRename", noDeep, nodeGen),
 		mk[DashName]("DashName", noDeep),
 		mk[FieldIDs]("FieldIDs"),
-		mk[PtrChains]("PtrChains"),
-		mk[PtrSlices]("PtrSlices"),
+		mk[PtrMore]("PtrMore"),
 		mk[ByteArrays]("ByteArrays"),
 		mk[OptKinds]("OptKinds", noDeep),
 		mk[MapTags]("MapTags", noRecon, nodeGen),
